@@ -122,18 +122,38 @@ def do_dispatch(env, c):
         if r is not None:
             getattr(r, a['op'])()       # free / disable / enable, from inside the callback
 
+    def delivery_context():
+        """(time, addr, recv_port) of the message being dispatched, read from the library's own dispatch frame
+        (OscInterface._msg_dispatch.sched_func) - a callback that declares fewer than four parameters is not
+        handed them, but the observation still needs them"""
+        f = sys._getframe(1)
+        while f is not None:
+            if f.f_code.co_name == 'sched_func' and 'addr' in f.f_locals and 'self' in f.f_locals:
+                return f.f_locals['time'], f.f_locals['addr'], f.f_locals['self'].port
+            f = f.f_back
+        return None
+
     def callback(i, fn, beh):
-        """logging callback scripted by beh: do beh['acts'], raise on the beh['rk']-th invocation"""
+        """logging callback scripted by beh: declares beh['ar'] parameters (1..4: a prefix of msg, time, addr,
+        recv_port; 0: *args), does beh['acts'], raises on the beh['rk']-th invocation"""
         count = [0]
 
-        def cb(msg, time, addr, port):
+        def body(*got):
             if len(log) >= 300:     # runaway delivery (responders multiplying): stop feeding it, record 'flood'
                 flood.append(1)
                 return
             count[0] += 1
-            if not any(addr is x for x in deliveries):
-                deliveries.append(addr)
-            d = 1 + [k for k, x in enumerate(deliveries) if x is addr][0]
+            ctx = delivery_context()
+            msg = got[0]
+            # what the function was handed wins; what it was not handed comes from the dispatch frame
+            vals = list(ctx) if ctx is not None else [0.0, None, 0]
+            for k, x in enumerate(got[1:4]):
+                vals[k] = x
+            time, addr, port = vals
+            addr_id = ctx[1] if ctx is not None else addr
+            if not any(addr_id is x for x in deliveries):
+                deliveries.append(addr_id)
+            d = 1 + [k for k, x in enumerate(deliveries) if x is addr_id][0]
             toks = []
             for p in msg[1:]:
                 oscrt.project_param(p, toks)
@@ -142,12 +162,21 @@ def do_dispatch(env, c):
                         'src': {'h': HOSTID.get(addr.hostname, 0),
                                 'p': udp.sym.get((addr.hostname, addr.port), addr.port) if udp else env.via.get(addr.port, addr.port)},
                         'via': env.via.get(port, 0),
-                        'tm': list(tm.to_bytes(8, 'big')), 'd': d})
+                        'tm': list(tm.to_bytes(8, 'big')), 'd': d, 'n': len(got)})
             for a in beh['acts']:
                 act(a)
             if beh['rk'] == count[0]:
                 raise RuntimeError('scripted callback fault (responder %d, invocation %d)' % (i, count[0]))
-        return cb
+        ar = beh.get('ar', 4)
+        if ar == 1:
+            return lambda msg: body(msg)
+        if ar == 2:
+            return lambda msg, time: body(msg, time)
+        if ar == 3:
+            return lambda msg, time, addr: body(msg, time, addr)
+        if ar == 0:
+            return lambda *args: body(*args)
+        return lambda msg, time, addr, port: body(msg, time, addr, port)
 
     ev = []
     for e in c['ev']:
